@@ -190,7 +190,7 @@ def _fmt_or(o):
 
 
 def r2_batch(ctx, facts):
-    r = ctx.rule("R2b", "batch: re-send only after an awaited reprepare Ok; unknown id is an error", floor=3)
+    r = ctx.rule("R2b", "batch: re-send only after an awaited reprepare Ok; unknown id is an error", floor=4)
     b = facts.one(r"^scylla::network::connection::Connection::batch_with_consistency::\{closure#0\}$")
     df = df_of(b, facts)
     sends = b.calls_to(CN + "send_request")
@@ -211,6 +211,17 @@ def r2_batch(ctx, facts):
             if s.bb not in b.reachable_from(brk):
                 ok = True
     r.instance("failed-reprepare-does-not-resend", ok, "a failed reprepare must exit, not loop", rep.span)
+    # the statement to re-prepare is looked up in the list that was actually sent (the output of prepare_batch, where
+    # statements with values were prepared on the fly), not in the caller's batch
+    fm = [c for c in b.calls_to("core::iter::traits::iterator::Iterator::find_map") if rep.bb in b.reachable_from(c.bb) and s.bb in b.reachable_from(c.bb)]
+    if len(fm) != 1:
+        raise AnchorLost("batch_with_consistency: expected one find_map feeding reprepare, found %d" % len(fm))
+    _, calls, _ = backward_slice(b, fm[0].args[0])
+    from_prepared = any((x.name or "").endswith("Connection::prepare_batch") for x in calls)
+    frame = [st for bb in b.live_blocks for st in b.stmts(bb) if st[0] == "A" and st[2][0] == "agg" and st[2][1][0] == "adt" and st[2][1][1].endswith("request::batch::Batch")]
+    frame_ok = bool(frame) and all(any((x.name or "").endswith("Connection::prepare_batch") for x in backward_slice(b, st[2][2][0])[1]) for st in frame)
+    r.instance("lookup-in-the-sent-statements", from_prepared and frame_ok,
+               "the UNPREPARED id must be searched in the statements of the batch that was sent (prepare_batch's output, also the frame's `statements`); lookup derives from prepare_batch: %s, frame derives from prepare_batch: %s" % (from_prepared, frame_ok), fm[0].span)
     errs = [bb for bb in b.live_blocks for st in b.stmts(bb) if st[0] == "A" and st[2][0] == "agg" and st[2][1][0] == "adt" and st[2][1][2] == "RepreparedIdMissingInBatch"]
     r.instance("unknown-id-is-error", bool(errs) and all(s.bb not in b.reachable_from(e) for e in errs), "UNPREPARED for an id that is not in the batch must be an error exit", s.span)
 
